@@ -10,24 +10,25 @@ def run(tier):
     c = Check("C18", tier)
     wd = workdir("C18")
     build_harness()
-    cfg = "MC_Ffi_quick.cfg" if tier == "quick" else "MC_Ffi_thorough.cfg"
-    cases = os.path.join(wd, "cases.ndjson")
-    mc = tlc_mc("MC_Ffi", cfg, wd, workers=12, cases_out=cases, coverage=False, timeout=6000, xmx="12g")
-    c.add_mc(mc)
-    trace = os.path.join(wd, "trace.ndjson")
-    run_harness("ffi", cases, trace, timeout=6000)
-    v = tlc_validate("Trace_Ffi", "Trace_Ffi.cfg", trace, wd, shards=12, boundary=("begin",), timeout=6000)
-    c.add_validation(v, cases_path=cases, behaviours=mc["replays"], boundary=("begin",), cid_key="cid")
     n_alloc = 0
     n_trans = 0
-    with open(trace) as f:
-        for line in f:
-            e = json.loads(line)
-            n_alloc += len(e.get("allocs", []))
-            n_trans += e.get("transient", 0)
+    # the whole surface to a small depth (one sequence per distinct state), then the life of one body filter to depth 7, every call sequence
+    for cfg in ["MC_Ffi_quick.cfg" if tier == "quick" else "MC_Ffi_thorough.cfg", "MC_Ffi_filter.cfg"]:
+        cases = os.path.join(wd, cfg + ".cases.ndjson")
+        mc = tlc_mc("MC_Ffi", cfg, wd, workers=12, cases_out=cases, coverage=False, timeout=6000, xmx="12g")
+        c.add_mc(mc)
+        trace = os.path.join(wd, "trace.ndjson")
+        run_harness("ffi", cases, trace, timeout=6000)
+        v = tlc_validate("Trace_Ffi", "Trace_Ffi.cfg", trace, wd, shards=12, boundary=("begin",), timeout=6000)
+        c.add_validation(v, cases_path=cases, behaviours=mc["replays"], boundary=("begin",), cid_key="cid")
+        with open(trace) as f:
+            for line in f:
+                e = json.loads(line)
+                n_alloc += len(e.get("allocs", []))
+                n_trans += e.get("transient", 0)
+        os.remove(trace)
     c.extra["allocator_events_audited"] = n_alloc
     c.extra["transient_pairs_elided_by_recorder"] = n_trans
-    os.remove(trace)
     c.assumptions = ["the harness is the C caller: it declares the extern \"C\" symbols of redirectionio.h itself and links the rlib; caller-side malloc/free are Box / CString with exact sizes",
                      "alloc/dealloc pairs inside one call with the identical layout are elided by the recorder (a mismatching pair is never elided)",
                      "reads through dangling pointers are not observable in an event trace; the specification forbids the calls that would cause them"]
